@@ -166,8 +166,8 @@ def wrapper_random(run, prop, classes, n, all_rejects):
 
 def handoff_race(run, prop, classes, all_rejects):
     """Real-time schedules the bubble cannot run: a waiter gives up while unblock() holds the limiter mutex mid hand-off."""
-    out, _ = run.go("^(TestHandoffGiveUpRace|TestUnblockRace)$", env={"VERIF_N": 6 if run.tier == "thorough" else 2}, timeout=600)
-    for fname, label in (("handoff_trace.ndjson", "handoff-race"), ("unblock_trace.ndjson", "unblock-race")):
+    out, _ = run.go("^(TestHandoffGiveUpRace|TestUnblockRace|TestArrivalRace)$", env={"VERIF_N": 6 if run.tier == "thorough" else 2}, timeout=600)
+    for fname, label in (("handoff_trace.ndjson", "handoff-race"), ("unblock_trace.ndjson", "unblock-race"), ("arrival_trace.ndjson", "arrival-race")):
         tp = os.path.join(out, fname)
         rejects, total = validate_sharded(run, "WrapperTrace", "Wrapper_trace.cfg", tp)
         run.events += total
@@ -254,7 +254,7 @@ LIVE = {n: ["TerminalAllServed"] for n in ("b3f", "b4", "q4", "q4l", "q3n")}
 
 def c10(run):
     th = run.tier == "thorough"
-    names = ["b3", "b3f", "d2", "q2", "q3s"] + (["b3p", "b3l2", "d3", "d3f", "q3", "q3l", "q3n", "b4", "q4", "q4t"] if th else [])
+    names = ["b3", "b3f", "d2", "q2", "q3s", "q3n"] + (["b3p", "b3l2", "d3", "d3f", "q3", "q3l", "b4", "q4", "q4t"] if th else [])
     wrapper_pipeline(run, "C10", names, ["b3-asdelivered-lostwake", "b3f-asdelivered-lostwake", "q3-asdelivered-lostwake", "q3-unbuffered-lostwake"],
                      {"lostwake"}, random_n=2000 if th else 300, extra_invs=LIVE, handoff=True)
 
@@ -805,6 +805,8 @@ def c20(run):
             return {"kind": "default", "what": "limit gauge"}
         return None
     limiter_pipeline(run, "C20", lambda m: {"kind": "default", "what": "emission"} if _res_field_differs(m, "inflight") else None, lim_rj, graphs=th)
+    # every processed sample of every limit algorithm emits one RTT, one in-flight and a drop increment iff drop (LimitTrace class metrics)
+    limits_pipeline(run, "C20", {"metrics"}, aimd=False, vegas=False)
     run.assumptions += ["Start/Stop/Register calls are sequential (the poller is the only concurrent party); the TLC model additionally covers two concurrent callers",
                         "Stop is never issued at exactly a ticker instant by the drivers' contract (interval (t, t+d] inclusive is polled before the next call)",
                         "the per-sample emission of the limit algorithms (RTT / in-flight / drop counter) is checked by the limit-algorithm traces (C04/C16 machinery), see DESIGN"]
